@@ -436,6 +436,30 @@ def forms(ctx):
                       lambda size=size: [AtomGrid(rg, degrees=None, sizes=[size], center=coords[i], rotate=0) for i in range(n)], 0))
     table.append(("from_size:default-seed-and-weights", lambda: MolGrid.from_size(nums, coords, 26, rgrid=rg),
                   lambda: [AtomGrid(rg, degrees=None, sizes=[26], center=coords[i], rotate=DEF(MolGrid.from_size)) for i in range(n)], 37))
+    # rotate given as the flag True (an int, seed 1, for the atomic grids) -- the same argument on both sides
+    table.append(("from_size:rotate-flag", lambda: MolGrid.from_size(nums, coords, 26, rgrid=rg, aim_weights=B(), rotate=True),
+                  lambda: [AtomGrid(rg, degrees=None, sizes=[26], center=coords[i], rotate=True) for i in range(n)], 1))
+    table.append(("from_preset:rotate-flag", lambda: MolGrid.from_preset(nums, coords, "coarse", rgrid=rg, aim_weights=B(), rotate=True),
+                  lambda: [AtomGrid.from_preset(int(nums[i]), "coarse", rg, center=coords[i], rotate=True) for i in range(n)], 1))
+    table.append(("from_pruned:rotate-flag", lambda: MolGrid.from_pruned(nums, coords, 1.2, [rs] * n, [ds] * n, rgrid=rg, aim_weights=B(), rotate=True),
+                  lambda: pruned([1.2] * n, ds, rot=True), 1))
+    # atoms with DIFFERENT numbers of sector boundaries: per-atom lists, and a single number expanded per atom
+    rag = [[0.5, 1.0, 1.5], [0.7], [0.4, 1.1]]
+    ragd = [[3, 7, 5, 3], [5, 3], [3, 7, 5]]
+
+    def ragged(dfn=None, sfn=None):
+        return [AtomGrid.from_pruned(rg, 1.2, r_sectors=rag[i], d_sectors=None if dfn is None else dfn(i), s_sectors=None if sfn is None else sfn(i),
+                                     center=coords[i], rotate=0) for i in range(n)]
+
+    table.append(("from_pruned:ragged-lists", lambda: MolGrid.from_pruned(nums, coords, 1.2, rag, ragd, rgrid=rg, aim_weights=B(), rotate=0),
+                  lambda: ragged(lambda i: ragd[i]), 0))
+    table.append(("from_pruned:ragged-single-degree", lambda: MolGrid.from_pruned(nums, coords, 1.2, rag, 7, rgrid=rg, aim_weights=B(), rotate=0),
+                  lambda: ragged(lambda i: [7] * (len(rag[i]) + 1)), 0))
+    table.append(("from_pruned:ragged-single-size", lambda: MolGrid.from_pruned(nums, coords, 1.2, rag, s_sectors=26, rgrid=rg, aim_weights=B(), rotate=0),
+                  lambda: ragged(None, lambda i: [26] * (len(rag[i]) + 1)), 0))
+    table.append(("from_pruned:ragged-reversed-single-degree", lambda: MolGrid.from_pruned(nums, coords, 1.2, rag[::-1], np.int64(5), rgrid=rg, aim_weights=B(), rotate=0),
+                  lambda: [AtomGrid.from_pruned(rg, 1.2, r_sectors=rag[::-1][i], d_sectors=[5] * (len(rag[::-1][i]) + 1), center=coords[i], rotate=0)
+                           for i in range(n)], 0))
     for name, make, hand_fn, rot in table:
         ctx.count(section="argument-forms")
         case = {"route": "forms", "form": name}
